@@ -401,10 +401,23 @@ def minimise(conc, origin, v0, ops, clause, flavour):
     return ops
 
 
+def replay_one(job, table, pools):
+    """Re-execute one recorded behaviour step by step (./check C01 --replay)."""
+    r = job["replay"]
+    conc = Conc(r["conc"], table, pools)
+    ops = [(o, tuple(tuple(x) if isinstance(x, list) else x for x in a)) for (o, a) in r["ops"]]
+    fails, _, events = execute(conc, r["origin"], tuple(r["v0"]), ops, r["flavour"], epilogue=False)
+    steps = []
+    for (o, a), e in zip(ops, events):
+        steps.append({"op": op_str(o, a), "returned_value_stands_for": e["ret"], "projection": e["st"]})
+    return {"n": {}, "fail": [{"step": i, "clause": c, "detail": d} for (i, c, d) in fails], "steps": steps, "drift": [], "samples": [], "traces": []}
+
+
 def run_job(job):
-    from . import tlc
     table = {(k, key): toks for k, key, toks in L.read_dump(job["dump"])}
     pools = L.load_pools(job["pools"])
+    if job.get("replay"):
+        return replay_one(job, table, pools)
     out = {"n": {"paths": 0, "steps": 0, "concs": 0}, "fail": [], "drift": [], "samples": [], "traces": []}
     import json
     with open(job["paths"]) as f:
